@@ -311,14 +311,16 @@ func (ec *EventSystemImpl) CloseAllStreams() {
 }
 
 func (ec *EventSystemImpl) reloadConfig() {
+	requestCapacity := getRequestCapacity()
+	ringBufferCapacity := getRingBufferCapacity()
 	ec.Lock()
-	ec.requestCapacity = getRequestCapacity()
-	ec.ringBufferCapacity = getRingBufferCapacity()
+	ec.requestCapacity = requestCapacity
+	ec.ringBufferCapacity = ringBufferCapacity
 	ec.Unlock()
 
 	// resize the ring buffer & event store with new capacity
-	ec.Store.SetStoreSize(ec.requestCapacity)
-	ec.eventBuffer.Resize(ec.ringBufferCapacity)
+	ec.Store.SetStoreSize(requestCapacity)
+	ec.eventBuffer.Resize(ringBufferCapacity)
 
 	if ec.isRestartNeeded() {
 		ec.Restart()
